@@ -8,8 +8,10 @@ import (
 	"runtime/debug"
 	"strings"
 
+	"free5gclib/aper"
 	"free5gclib/nas/nasConvert"
 	"free5gclib/ngap/ngapConvert"
+	"free5gclib/ngap/ngapType"
 	"free5gclib/openapi/models"
 	"free5gclib/util_3gpp"
 
@@ -149,16 +151,17 @@ func runC17(c *fw.Case) (o fw.Outcome) {
 			}
 			if mode != 0 {
 				ip6 := net.IP(rbytes(r, 16))
-				switch r.Intn(5) {
+				switch r.Intn(9) {
 				case 0:
 					ip6 = net.ParseIP("::")
 				case 1:
 					ip6 = net.ParseIP("::1")
 				case 2:
 					ip6 = net.ParseIP("2001:db8:cafe::1")
-				}
-				if ip6.To4() != nil { // keep genuinely 128-bit forms only; v4-mapped text would re-parse as IPv4
-					ip6[0] = 0x20
+				case 3: // IPv4-mapped: still a 128-bit address (TS 38.414: the family is the bit-string length, not the value)
+					ip6 = net.IP(append([]byte{0, 0, 0, 0, 0, 0, 0, 0, 0, 0, 0xff, 0xff}, rbytes(r, 4)...))
+				case 4: // IPv4-compatible and NAT64 prefixes
+					ip6 = net.IP(append(pick(r, []byte{0, 0, 0, 0, 0, 0, 0, 0, 0, 0, 0, 0}, []byte{0, 0x64, 0xff, 0x9b, 0, 0, 0, 0, 0, 0, 0, 0}), rbytes(r, 4)...))
 				}
 				v6 = ip6.String()
 			}
@@ -173,6 +176,9 @@ func runC17(c *fw.Case) (o fw.Outcome) {
 				if !c17Pair(&o, nb[0], nb[1]) {
 					return
 				}
+			}
+			if !c17Bits(&o, r) {
+				return
 			}
 		}
 	case 4:
@@ -282,6 +288,42 @@ func c17Pair(o *fw.Outcome, v4, v6 string) bool {
 	}
 	o.Count("addresses", 1)
 	o.Count(fmt.Sprintf("addresses_%dbit", tla.Value.BitLength), 1)
+	return true
+}
+
+// c17Bits: the inverse direction first. Any 32 / 128 / 160-bit string is an address (pair); the text returned must put an
+// IPv4 address in the first slot exactly for 32 and 160 bits and an IPv6 address in the second exactly for 128 and 160
+// bits, and converting the text back must give the same bits.
+func c17Bits(o *fw.Outcome, r *rand.Rand) bool {
+	n := pick(r, 4, 16, 20)
+	b := rbytes(r, n)
+	if n >= 16 {
+		v6 := b[n-16:]
+		switch r.Intn(6) {
+		case 0:
+			copy(v6, []byte{0, 0, 0, 0, 0, 0, 0, 0, 0, 0, 0xff, 0xff})
+		case 1:
+			copy(v6, make([]byte, 12))
+		case 2:
+			copy(v6, make([]byte, 16))
+		case 3:
+			copy(v6, []byte{0, 0x64, 0xff, 0x9b, 0, 0, 0, 0, 0, 0, 0, 0})
+		}
+	}
+	var tla ngapType.TransportLayerAddress
+	tla.Value = aper.BitString{Bytes: append([]byte(nil), b...), BitLength: uint64(8 * n)}
+	o.Input = fmt.Sprintf("IPAddressToString(%d bits %x)", 8*n, b)
+	g4, g6 := ngapConvert.IPAddressToString(tla)
+	o.Count("bit_strings_converted_to_text", 1)
+	if (g4 != "") != (n == 4 || n == 20) || (g6 != "") != (n == 16 || n == 20) {
+		o.Fail("ip-family-by-length", "IPAddressToString of a %d-bit address %x returns (%q,%q): TS 38.414 makes 32 bits an IPv4 address, 128 bits an IPv6 address and 160 bits both", 8*n, b, g4, g6)
+		return false
+	}
+	back := ngapConvert.IPAddressToNgap(g4, g6)
+	if int(back.Value.BitLength) != 8*n || !bytes.Equal(back.Value.Bytes, b) {
+		o.Fail("ip-round-trip", "IPAddressToNgap(IPAddressToString(%d bits %x)) = %d bits %x (text %q,%q)", 8*n, b, back.Value.BitLength, back.Value.Bytes, g4, g6)
+		return false
+	}
 	return true
 }
 
